@@ -45,6 +45,22 @@ BAD = ['vb: MachineInteger := "str";',
        ')));']
 
 
+# rejected forms that touch an EXISTING declaration; each is ill-typed only once that declaration exists, so it carries a
+# precondition on the model state: it is only placed after good form number `after` (0-based) of its set
+STATEFUL = [
+    (0, 'va := "s";', 0),                         # wrong type assigned to an existing variable
+    (0, 'va: MachineInteger == 6;', 0),           # constant definition of an existing variable
+    (0, 'va := vf;', 1),                          # function assigned to an integer variable
+    (0, 'vg := 3;', 4),                           # assignment to an existing function constant
+    (1, 'vl := 5;', 1),
+    (1, 'vl: List MachineInteger == [1];', 1),
+    (2, 'vx := "one";', 0),
+    (2, 'vy: MachineInteger == 9;', 1),
+    (0, 'vf(s: String): MachineInteger == s;', 1),            # ill-typed overload of an existing function
+    (0, 'vnl: List MachineInteger := [1, 2];', 0),            # uses a type whose import is missing
+]
+
+
 def main(tier):
     ck = Check(PID, 'model_checking', tier)
     b = ck.build('aldor', 'foam', 'libaldor')
@@ -73,6 +89,15 @@ def main(tier):
         for pos in range(len(good) + 1):
             for bd in BAD:
                 hist.append((si, good[:pos] + [bd] + good[pos:], [bd], ref))
+        for (sj, bd, after) in STATEFUL:
+            if sj != si:
+                continue
+            for pos in range(after + 1, len(good) + 1):
+                hist.append((si, good[:pos] + [bd] + good[pos:], [bd], ref))
+                for b2 in BAD[:3]:
+                    for pos2 in range(pos, len(good) + 1):
+                        h = good[:pos] + [bd] + good[pos:pos2] + [b2] + good[pos2:]
+                        hist.append((si, h, [bd, b2], ref))
         for p1, p2 in itertools.combinations_with_replacement(range(len(good) + 1), 2):
             for b1, b2 in itertools.product(BAD[:nbad2], repeat=2):
                 h = list(good)
@@ -114,7 +139,8 @@ def main(tier):
             problem = 'only %d error(s) reported for %d rejected form(s)' % (nerr, len(bads))
         if problem:
             pos = [i for i, f in enumerate(forms) if f in bads]
-            key = 'set=%d,bad=%s,at=%s' % (si, '+'.join(str(BAD.index(x)) for x in bads) or 'none', '+'.join(map(str, pos)) or 'perm')
+            allbad = BAD + [x[1] for x in STATEFUL]
+            key = 'set=%d,bad=%s,at=%s' % (si, '+'.join(str(allbad.index(x)) for x in bads) or 'none', '+'.join(map(str, pos)) or 'perm')
             ck.report(key, problem + '\n' + r.text()[-600:], files={'session.in': '\n'.join(HEAD + forms + ['#quit']) + '\n'},
                       cmds=[' '.join(tc.b.base() + tc.flags + ['-Gloop']) + ' < session.in'])
         else:
